@@ -47,6 +47,7 @@ pub fn formats() -> Vec<Fmt> {
 }
 
 pub fn run(ctx: &mut Ctx) {
+    borrowed_shapes(ctx);
     let pool = fd_pool();
     let n = ctx.budget(3000, 60_000);
     for i in 0..n {
@@ -262,6 +263,80 @@ impl<'a> ShapeFn for TypedRt<'a> {
             ctx.sample(json!({"kind": "typed", "shape": name, "value": val.show()}));
         });
         }
+    }
+}
+
+/// Borrowed targets (`&[u8]`, `&str` and containers of them): they take the decoder's zero-copy fast paths, which the
+/// owned shapes of the palette never reach.
+fn borrowed_shapes(ctx: &mut Ctx) {
+    use std::collections::HashMap;
+    use zvariant::{to_bytes, BE, LE};
+    macro_rules! rt {
+        ($ctx:expr, $idx:expr, $name:expr, $ty:ty, $val:expr) => {{
+            let v: $ty = $val;
+            $ctx.count("class:borrowed-shape", 1);
+            'outer: for endian in [LE, BE] {
+                for off in [0usize, 1, 4, 5] {
+                    $ctx.count("evaluations", 1);
+                    let c = Context::new_dbus(endian, off);
+                    match to_bytes(c, &v) {
+                        Err(e) => {
+                            $ctx.finding($idx, "encode-error", "borrowed", $name, json!({"shape": $name, "error": e.to_string()}));
+                            break 'outer;
+                        }
+                        Ok(enc) => match enc.deserialize::<$ty>() {
+                            Err(e) => {
+                                $ctx.finding($idx, "decode-error", "borrowed", $name, json!({"shape": $name, "value": format!("{v:?}"), "offset": off, "bytes": vref::hex(enc.bytes()), "error": e.to_string()}));
+                                break 'outer;
+                            }
+                            Ok((back, used)) => {
+                                if back != v {
+                                    $ctx.finding($idx, "roundtrip-value-differs", "borrowed", $name, json!({"shape": $name, "value": format!("{v:?}"), "decoded": format!("{back:?}")}));
+                                    break 'outer;
+                                }
+                                if used != enc.len() {
+                                    $ctx.finding($idx, "consumed-mismatch", "borrowed", $name, json!({"shape": $name, "consumed": used, "encoded_len": enc.len()}));
+                                    break 'outer;
+                                }
+                            }
+                        },
+                    }
+                }
+            }
+            $ctx.distinct(fnv($name) ^ $idx);
+        }};
+    }
+    let n = ctx.budget(600, 20_000);
+    for j in 0..n {
+        let idx = 4_000_000_000 + j;
+        if !ctx.want(idx) {
+            continue;
+        }
+        let mut rng = ctx.rng(idx);
+        // a pool of byte strings and texts the borrowed values point into
+        let mut pool: Vec<Vec<u8>> = Vec::new();
+        for k in 0..6 {
+            let n = match k {
+                0 => 0,
+                1 => 1,
+                _ => rng.usize_below(40),
+            };
+            pool.push(rng.bytes(n));
+        }
+        let texts: Vec<String> = (0..4).map(|k| if k == 0 { String::new() } else { format!("t{}é", rng.below(1000)) }).collect();
+        let b = |k: usize| -> &[u8] { &pool[k % pool.len()] };
+        let t = |k: usize| -> &str { &texts[k % texts.len()] };
+        let count = rng.usize_below(5);
+        ctx.guarded(idx, "borrowed", || json!({}), |ctx| {
+            rt!(ctx, idx, "&[u8]", &[u8], b(2));
+            rt!(ctx, idx, "Vec<&[u8]>", Vec<&[u8]>, (0..count).map(|k| b(k)).collect());
+            rt!(ctx, idx, "Vec<Vec<&[u8]>>", Vec<Vec<&[u8]>>, (0..count).map(|k| (0..k % 3).map(|m| b(k + m)).collect()).collect());
+            rt!(ctx, idx, "(&[u8],u8,&[u8])", (&[u8], u8, &[u8]), (b(3), 7, b(4)));
+            rt!(ctx, idx, "Vec<(&str,&[u8])>", Vec<(&str, &[u8])>, (0..count).map(|k| (t(k), b(k + 1))).collect());
+            rt!(ctx, idx, "HashMap<&str,&[u8]>", HashMap<&str, &[u8]>, (0..count).map(|k| (t(k), b(k))).collect());
+            rt!(ctx, idx, "Vec<&str>", Vec<&str>, (0..count).map(|k| t(k)).collect());
+            rt!(ctx, idx, "(u8,Vec<&[u8]>,&str)", (u8, Vec<&[u8]>, &str), (1, (0..count).map(|k| b(5 - k % 5)).collect(), t(1)));
+        });
     }
 }
 
